@@ -270,6 +270,8 @@ struct Space {
     largest_acked: Option<u64>,
     discarded: bool,
     ce: u64,
+    /// largest ECN-CE total carried by a frame that newly acknowledged a never-lost packet
+    ce_must: u64,
 }
 
 impl Space {
@@ -669,7 +671,6 @@ impl CcSys {
 
     fn apply_ack_ecn(&mut self, e: usize, set: &BTreeSet<u64>, delay_ms: u32, mode: EcnMode) {
         let now = self.now_ns();
-        let ce = mode == EcnMode::Plus1;
         let ecn = match mode {
             EcnMode::Absent => None,
             // the counts are cumulative: a frame may carry them without any new mark
@@ -679,6 +680,13 @@ impl CcSys {
                 Some(EcnCounts::new(vi(0), vi(0), vi(self.spaces[e].ce)))
             }
         };
+        // The frame "carries a larger ECN-CE count" when its count exceeds the largest one the
+        // sender was obliged to take note of: RFC 9002 A.7 processes the ECN section of a frame
+        // only if it newly acknowledges a packet still tracked, and packets declared lost may
+        // have been forgotten (OnPacketsLost removes them) — a frame that newly acknowledges
+        // nothing but such packets may or may not have been looked at.
+        let carried = ecn.as_ref().map(|_| self.spaces[e].ce);
+        let ce = carried.is_some_and(|c| c > self.spaces[e].ce_must);
         let frame = ack_frame_for(set, delay_ms as u64 * 1000, ecn);
         // the call sequence of qconnection::space::*: frames are dispatched first, then
         // `Path::on_packet_rcvd` releases the anti-amplification flag
@@ -694,6 +702,7 @@ impl CcSys {
         let mut largest_newly: Option<(u64, u64, bool)> = None; // (pn, sent, was Out)
         let mut any_ae_out = false;
         let mut any_ae = false;
+        let mut any_out = false;
         {
             let sp = &mut self.spaces[e];
             sp.largest_acked = Some(sp.largest_acked.map_or(largest, |l| l.max(largest)));
@@ -704,6 +713,7 @@ impl CcSys {
                         info.newly_acked.push((p.sent, p.inflight));
                         any_ae |= p.ae;
                         any_ae_out |= p.ae && was_out;
+                        any_out |= was_out;
                         p.st = St::Acked;
                         if largest_newly.is_none_or(|(l, _, _)| pn > l) {
                             largest_newly = Some((pn, p.sent, was_out));
@@ -711,6 +721,10 @@ impl CcSys {
                     }
                 }
             }
+        }
+        if let (Some(c), true) = (carried, any_out) {
+            let sp = &mut self.spaces[e];
+            sp.ce_must = sp.ce_must.max(c);
         }
         self.pending.borrow_mut().newly_acked += info.newly_acked.len() as u64;
         if let Some((pn, sent, was_out)) = largest_newly {
@@ -1034,6 +1048,8 @@ impl CcSys {
     /// Replay mode: the first pending violation that matches the expected signature.
     fn strict_check(&mut self) -> Result<(), Fail> {
         let Some(want) = &self.strict else { return Ok(()) };
+        #[cfg(feature = "snapshot")]
+        println!("  [{} ns] after {:?}: {}", self.now_ns(), self.hist.last(), self.clock.canon(&format!("{:?}", self.snap)));
         let p = self.pending.replace(Pending::default());
         for (sig, detail) in p.violations {
             println!("  [{} ns] {sig} — {detail}", self.now_ns());
@@ -1677,7 +1693,7 @@ pub fn run(args: &Args) -> i32 {
         }
         match (args.thorough, phase) {
             (false, Phase::HsKeys) => vec![(6, 1, 0.25)],
-            (false, _) => vec![(7, 1, 0.075)],
+            (false, _) => vec![(8, 1, 0.4)],
             // sized for ~500 CPU-seconds in total so that the tier also completes on a busy
             // machine; (9,2) / (8,1) for the three-space phase are 5–8 million transitions each
             (true, Phase::Confirmed) => vec![(9, 1, 1.1), (8, 2, 1.9)],
@@ -1767,7 +1783,7 @@ pub fn run(args: &Args) -> i32 {
     if args.wants("ecn") {
         for role in [Role::Client, Role::Server] {
             let sink = Arc::new(Sink::default());
-            let depth_e = if args.thorough { 14 } else { 11 };
+            let depth_e = if args.thorough { 14 } else { 12 };
             let ecfg = ExploreCfg {
                 max_depth: depth_e,
                 time_cap: Duration::from_secs(if args.thorough { 120 } else { 10 }),
